@@ -9,14 +9,19 @@ FUSED = ['Cc1cccc2ccccc12', 'c1ccc2ccccc2c1', 'c1ccc2cc3ccccc3cc2c1', 'Cc1ccc2cc
          'c1ccc2c(c1)ccc1ccccc12', 'OC1=CC=CC2=CC=CC=C12']
 # physisorbed species: a zero-order ('~') or dative bond to the surface atom, written metal-last and metal-first
 PHYS = ['O=C(=O)~[Pt]', '[Pt]~C(=O)=O', 'O~[Pt]', '[Pt]~O', 'CO~[Pt]', 'C(=O)(O)~[Pt]', 'O=C(=O)->[Pt]', '[Pt]<-C(=O)=O', 'OC(~[Pt])=O']
+# aromatic five-rings bound to the surface (as SMILES the ring is kekulised by sanitisation, as a molecule object by Kekulize)
+FURANS = ['[Pt]c1cocc1[Pt]', 'Cc1occ([Pt])c1[Pt]', 'O=Cc1occ([Pt])c1[Pt]']
 EXTRA = {'BensonGA': ['CCCC/C=C\\CCCCCC', 'CC1CCCCC1', 'C1(CCCCC1)C', 'Cc1ccccc1C', 'C1=CC=CCC1', 'C1CC=CC=C1', 'CC(C)CC(C)C', 'C/C=C\\C', 'CC=CC',
                       'CC(C)=C(C)C', 'c1ccoc1', 'c1ccncc1', 'C=C1C=CC=CC1=C', 'CC(C)(C)CC(C)(C)C', 'OC(=O)c1ccccc1',
                       # the same group type reached natively and through a remap, in either atom order (radical and closed-shell methyls)
-                      'C[C]=CC', 'C[C]=C(C)C', 'CC(=O)CC', 'COCC', 'C[CH]C=CC'] + FUSED,
-         'PPY': ['CC1CCCCC1', 'Cc1ccccc1C', 'C1=CC=CCC1', 'CCCC/C=C\\CCCCCC', 'c1ccncc1', 'c1ccsc1', 'Cc1cccs1', 'c1ccc2sccc2c1'] + FUSED[:3],
-         'SalciccioliGA2012': ['C([Pt])C[Pt]', 'C([Pt])([Pt])C([Pt])([Pt])C', '[Pt]C([Pt])C([Pt])([Pt])C=O', 'OC([Pt])C([Pt])O'],
-         'GRWSurface2018': ['[Pt]C([Pt])C([Pt])([Pt])C=O', 'C([Pt])([Pt])C([Pt])C[Pt]', 'OC([Pt])([Pt])C([Pt])([Pt])C([Pt])([Pt])C([Pt])([Pt])'] + PHYS,
-         'GRWAqueous2018': PHYS, 'GuSolventGA2017Aq': PHYS, 'GuSolventGA2017Vac': PHYS, 'PtSurface2023': PHYS,
+                      'C[C]=CC', 'C[C]=C(C)C', 'CC(=O)CC', 'COCC', 'C[CH]C=CC',
+                      # small fused / bridged bicyclics: the ring set used by the ring-count constraints must not depend on the numbering
+                      'C1CC2CC12', 'C1C2CC12', 'C1CCC2CC2C1', 'C1CC2CCC12', 'C1CC2CC2C1'] + FUSED,
+         'PPY': ['CC1CCCCC1', 'Cc1ccccc1C', 'C1=CC=CCC1', 'CCCC/C=C\\CCCCCC', 'c1ccncc1', 'c1ccsc1', 'Cc1cccs1', 'c1ccc2sccc2c1',
+                 'C1CC2CC12', 'C1CCC2CC2C1'] + FUSED[:3],
+         'SalciccioliGA2012': ['C([Pt])C[Pt]', 'C([Pt])([Pt])C([Pt])([Pt])C', '[Pt]C([Pt])C([Pt])([Pt])C=O', 'OC([Pt])C([Pt])O'] + FURANS,
+         'GRWSurface2018': ['[Pt]C([Pt])C([Pt])([Pt])C=O', 'C([Pt])([Pt])C([Pt])C[Pt]', 'OC([Pt])([Pt])C([Pt])([Pt])C([Pt])([Pt])C([Pt])([Pt])'] + FURANS + PHYS,
+         'GRWAqueous2018': PHYS, 'GuSolventGA2017Aq': PHYS, 'GuSolventGA2017Vac': PHYS, 'PtSurface2023': FURANS + PHYS,
          'XieGA2022': ['[Ru]C([Ru])C([Ru])([Ru])C', 'CCC', 'C([Ru])C[Ru]']}
 
 
